@@ -848,9 +848,10 @@ class Model:
     def in_field_expect(self, e):
         f = e["spec"]
         d = f["default"]
-        if d is not None and d["kind"] == "unserializable" and d["src"] == "[]":
-            # input-field defaults are judged on their serialized *value* (an empty list holds nothing that needs the missing
-            # serializer: the default stays, as on the pinned tree); parameter defaults on the declared type (check_type)
+        if d is not None and d["kind"] == "unserializable" and d["src"] == "[]" and f["t"][0] == "opt":
+            # Optional[List[NoSer]] = []: the serialization method of the union drops the unsupported list alternative and,
+            # without type check, hands the empty list back as is: the default stays (as on the pinned tree). Without Optional
+            # the method cannot be built at all (no default); parameter defaults are type-checked (no default either)
             d = {**d, "kind": "unhashable"}
         return self.arg_expect({"name": f["name"], "alias": None, "t": f["t"], "default": d})[2:]
 
